@@ -363,6 +363,9 @@ impl<'a> Lexer<'a> {
                 return Ok(Token::StringTok);
             }
         }
+        // Consume the lagging last byte so that the error span ends at the end of the input
+        // (a span ending inside a multi-byte character cannot be rendered).
+        while self.bytes.next().is_some() {}
         Err("Unterminated multiline string. Add \"# after the end of your string.".to_string())
     }
 
@@ -377,6 +380,8 @@ impl<'a> Lexer<'a> {
                 return Ok(Token::BlockComment);
             }
         }
+        // See above: keep the error span on a character boundary.
+        while self.bytes.next().is_some() {}
         Err("Unterminated multiline comment. Add |# after the end of your comment.".to_string())
     }
 
